@@ -944,3 +944,142 @@ def theta_rz_grid_needs_sorted_bounds(case: int, t1: float, t2: float, r1: float
     if ok:
         assert isinstance(sg, ThetaRZGrid)
         assert eq(list(sg._bounds[0]), [0.0, t1, t2]) and eq(list(sg._bounds[1]), [0.0, r1, r2])
+
+
+# ------------------------------------------------------------------------------------------------ systems (core, pools)
+SystemBlueprint = repo("armi.reactor.blueprints.reactorBlueprint:SystemBlueprint")
+Grids = repo("armi.reactor.blueprints.gridBlueprint:Grids")
+CoordinateLocation = repo("armi.reactor.grids.locations:CoordinateLocation")
+SYS = {"armi.reactor.blueprints.gridBlueprint:yamlize": "YZ", "armi.reactor.blueprints.reactorBlueprint:yamlize": "YZ",
+       "armi.reactor.blueprints.reactorBlueprint:context": "CTX",
+       "armi.reactor.blueprints.reactorBlueprint:getPluginManagerOrFail": "pluginManagerContract"}
+
+
+class CTX:
+    """armi.context as SystemBlueprint.construct uses it: this is the primary process"""
+
+    MPI_RANK = 0
+
+
+class AssemMark:
+    """an assembly handed out by Blueprints.constructAssem: the specifier it was made for and its serial number"""
+
+
+class BpAssem:
+    """the root blueprints as the system blueprint sees it: gridDesigns; constructAssem(cs, specifier=) returns a NEW assembly of the
+    design with that specifier, KeyError for a specifier no design has"""
+
+    def constructAssem(self, cs, name=None, specifier=None):
+        if specifier not in self.known:
+            raise KeyError(specifier)
+        self.made = self.made + 1
+        return new(AssemMark, specifier=specifier, serial=self.made)
+
+
+class SystemProbe:
+    """a system (core, pool): add(assembly, location) files the assembly at the location, LookupError for the location whose
+    indices are `bad`"""
+
+    def __init__(self, name):
+        self.name = name
+        self.placed = []
+        self.bad = None
+        self.spatialGrid = None
+        self.spatialLocator = None
+
+    def add(self, a, loc):
+        if (loc.i, loc.j) == self.bad:
+            raise LookupError(loc)
+        self.placed.append((a, loc))
+
+
+@lemma(overrides=SYS, gen={"i": (-2, 2), "j": (-2, 2), "case": (0, 2), "p": (0.5, 30.0)})
+def every_named_location_gets_a_new_assembly_of_the_specified_design(i: int, j: int, case: int, p: float):
+    """SystemBlueprint._loadComposites (+ HexGrid.__getitem__): contents = centre 'IC', (1, 0) 'OC' and one more cell (i, j) in -2..2
+    (enumerated) 'IC': every named location gets its own new assembly made for the specifier written there, at the locator
+    with exactly those indices on the system's grid - nothing else is placed; a specifier no assembly design has (case 1) and
+    a location the system does not have (case 2) are refused.  Stand-ins: BpAssem, SystemProbe, AssemMark."""
+    assume(p > 0)
+    i, j, case = choose(i, -2, 2), choose(j, -2, 2), choose(case, 0, 2)
+    contents = {(0, 0): "IC", (1, 0): "OC"}
+    contents[i, j] = "XX" if case == 1 else "IC"
+    system = SystemProbe("core")
+    system.spatialGrid = hexGridDesign(dict(contents), "full", "hex", None, p).construct()
+    system.bad = (i, j) if case == 2 else None
+    bp = new(BpAssem, known=("IC", "OC"), made=0)
+    sb = SystemBlueprint("core", "core", Triplet(0.0, 0.0, 0.0))
+    try:
+        sb._loadComposites({}, system, contents, bp)
+        ok = True
+    except (ValueError, KeyError):
+        ok = False
+    assert ok == (case == 0), "unknown specifier / non-existent location refused"
+    if ok:
+        assert len(system.placed) == len(contents), "one assembly per named location"
+        cells = list(contents.keys())
+        for k in range(len(cells)):
+            a, loc = system.placed[k]
+            assert (loc.i, loc.j, loc.k) == (cells[k][0], cells[k][1], 0) and same(loc.grid, system.spatialGrid)
+            assert a.specifier == contents[cells[k]], "the specified design"
+            assert a.serial == k + 1, "a new assembly each time"
+
+
+class PoolProbe(SystemProbe):
+    pass
+
+
+class Hook:
+    def defineSystemBuilders(self):
+        return [{"core": SystemProbe}, {"sfp": PoolProbe, "core": PoolProbe}]
+
+
+class PM:
+    """the plugin manager: its hook defineSystemBuilders() gives, per plugin, {system type: class}"""
+
+    hook = Hook()
+
+
+def pluginManagerContract():
+    return PM()
+
+
+class ReactorProbe:
+    def add(self, system):
+        self.children.append(system)
+
+
+@lemma(overrides=SYS, gen={"typ": (0, 2), "grid": (0, 2), "p": (0.5, 30.0)})
+def system_is_built_with_the_named_grid_at_the_specified_origin(typ: int, grid: int, x: float, y: float, z: float, p: float, load: bool):
+    """SystemBlueprint.construct / _resolveSystemType / _constructComposites (+ GridBlueprint.construct, _loadComposites): the system is an
+    instance of the FIRST class a plugin offers for its type, has the blueprint's name, is a child of the reactor, sits at the
+    specified origin, carries the grid built from the grid design it NAMES (pitch as given there) and - when loading is asked
+    for - one assembly per location of that design; an unknown system type and a blueprint without grids are refused; a grid
+    name no design has gives a system without a grid.  Stand-ins: PM / Hook, SystemProbe, ReactorProbe, BpAssem."""
+    assume(p > 0)
+    typ, grid = choose(typ, 0, 2), choose(grid, 0, 2)
+    gCore = hexGridDesign({(0, 0): "IC", (1, 0): "OC", (0, 1): "OC"}, "full", "hex", None, p)
+    gPool = hexGridDesign({(0, 0): "OC"}, "full", "hex", None, 2.0 * p)
+    gPool.name = "sfp"
+    designs = ymap(Grids, [("core", gCore), ("sfp", gPool)])
+    bp = new(BpAssem, known=("IC", "OC"), made=0, gridDesigns=designs)
+    sb = SystemBlueprint("primary", ("core", "sfp", "nope")[grid], Triplet(x, y, z))
+    sb.typ = ("core", "sfp", "tank")[typ]
+    r = new(ReactorProbe, children=[])
+    try:
+        s = sb.construct({}, bp, r, loadComps=load)
+        ok = True
+    except ValueError:
+        ok = False
+    assert ok == (typ != 2), "unknown system type refused"
+    if ok:
+        assert type(s) is (SystemProbe, PoolProbe)[typ] and s.name == "primary", "first builder offered for the type"
+        assert len(r.children) == 1 and same(r.children[0], s)
+        o = s.spatialLocator
+        assert isinstance(o, CoordinateLocation) and eq(o.i, x) and eq(o.j, y) and eq(o.k, z) and o.grid is None, "at the specified origin"
+        if grid == 2:
+            assert s.spatialGrid is None and s.placed == []
+        else:
+            assert eq(s.spatialGrid.pitch, (p, 2.0 * p)[grid]) and same(s.spatialGrid.armiObject, s), "the grid design it names"
+            assert [a.specifier for a, loc in s.placed] == ((["IC", "OC", "OC"], ["OC"])[grid] if load else [])
+    bp0 = new(BpAssem, known=(), made=0, gridDesigns=ymap(Grids, []))
+    assert refused(lambda: sb.construct({}, bp0, new(ReactorProbe, children=[]))), "no grids at all: refused"
